@@ -2,7 +2,7 @@
 # usage: recheck_seed.sh <name> <property>  -- re-run ./check <property> against the scratch worktree /tmp/seed_<name> with its change applied (no re-confirmation)
 n=$1; p=$2; w=/tmp/seed_$n
 cd $w && git checkout -q -- . && git apply SEED/patch.diff || exit 3
-VERIF_GEN=/tmp/gen_$n VERIF_REPO=$w /verif/check $p > /tmp/check_$n.full 2>&1; echo "exit=$?" >> /tmp/check_$n.full
+mkdir -p /tmp/evid_$n; VERIF_EVID=/tmp/evid_$n VERIF_GEN=/tmp/gen_$n VERIF_REPO=$w /verif/check $p > /tmp/check_$n.full 2>&1; echo "exit=$?" >> /tmp/check_$n.full
 grep -E "^(VIOLATION|OK|UNDECIDED|KNOWN|exit=)" /tmp/check_$n.full | cut -c1-300 > /tmp/check_$n.log
 cd $w && git checkout -q -- .
 cat /tmp/check_$n.log
